@@ -234,7 +234,7 @@ PROPS['C07'] = dict(
     src='props/C07.cpp', variants=['fast', 'asan'], level='exploration',
     rule=('well-formed polygons by construction: star-shaped outer loop in the tangent plane under a linear map (rotation, squash to needles 0.05-0.8 cell wide) with 0-3 star-shaped holes in disjoint discs; '
           'shape arms (convex-ish, concave star, needle, smaller than a cell, large, triangle/quad) drawn independently of location arms (uniform, pentagon, antimeridian, high latitude, icosahedron edge, southern), '
-          'all 16 res, up to ~400 (quick) / 2e4 (thorough) cells. Stratum: boundaries of all res 0-1 cells and of all pentagons res<=6 (12) filled one and two levels finer. '
+          'all 16 res, up to ~400 (quick) / 8e3 (thorough) cells. Stratum: boundaries of all res 0-1 cells and of all pentagons res<=6 (12) filled one and two levels finer. '
           'non-trivial = at least one candidate centre decided inside and one decided outside; distinct by polygon + res'),
     quick=dict(cases={'fast': 40_000, 'asan': 4_000}, enum={'fast': 4}),
     thorough=dict(cases={'fast': 300_000, 'asan': 20_000}, enum={'fast': 8}),
